@@ -33,6 +33,8 @@ type Corpus struct {
 	Metas []corpusMeta
 	Pkgs  []*packages.Package
 	Skip  map[string]string // dir -> reason
+	// Broken: directories whose regenerated code does not type-check (dir -> first error)
+	Broken map[string]string
 }
 
 func copyFile(src, dst string) error {
@@ -49,12 +51,14 @@ func goEnv() []string {
 }
 
 // BuildCorpus regenerates the corpus. only, if non-empty, restricts the corpus to the named directories.
-func (r *Run) BuildCorpus(only map[string]bool) (*Corpus, error) {
+// A directory of /verif/corpus that holds a file PROPS (property ids separated by white space) is part of the corpus of
+// those properties only.
+func (r *Run) BuildCorpus(only map[string]bool, prop string) (*Corpus, error) {
 	scratch, err := os.MkdirTemp("", "govc-corpus-")
 	if err != nil {
 		return nil, err
 	}
-	c := &Corpus{Dir: scratch, Skip: map[string]string{}}
+	c := &Corpus{Dir: scratch, Skip: map[string]string{}, Broken: map[string]string{}}
 	gomod := "module verifcorpus\n\ngo 1.23.0\n\nrequire github.com/a-h/templ v0.0.0\n\nreplace github.com/a-h/templ => " + r.repo + "\n"
 	os.WriteFile(filepath.Join(scratch, "go.mod"), []byte(gomod), 0o644)
 	copyFile(filepath.Join(r.repo, "go.sum"), filepath.Join(scratch, "go.sum"))
@@ -90,6 +94,15 @@ func (r *Run) BuildCorpus(only map[string]bool) (*Corpus, error) {
 	sort.Strings(extra)
 	for _, g := range extra {
 		if st, err := os.Stat(g); err == nil && st.IsDir() {
+			if data, err := os.ReadFile(filepath.Join(g, "PROPS")); err == nil {
+				mine := false
+				for _, f := range strings.Fields(string(data)) {
+					mine = mine || f == prop
+				}
+				if !mine {
+					continue
+				}
+			}
 			addDir(g, "x_"+strings.ReplaceAll(filepath.Base(g), "-", "_"))
 		}
 	}
@@ -141,6 +154,7 @@ func (r *Run) LoadCorpus(c *Corpus) error {
 		if strings.HasPrefix(p.PkgPath, "verifcorpus/") {
 			if len(p.Errors) > 0 {
 				c.Skip[filepath.Base(p.PkgPath)] = "does not type-check: " + p.Errors[0].Error()
+				c.Broken[filepath.Base(p.PkgPath)] = p.Errors[0].Error()
 				continue
 			}
 			c.Pkgs = append(c.Pkgs, p)
